@@ -12,7 +12,8 @@ REQUIRED = ["contract.pb.write_to_file", "role.static", "role.dynamic", "role.ph
             "prediction.trajectory", "prediction.set", "prediction.none", "dynamic.default-arguments",
             "phantom.no-prediction", "static.signals", "sign.virtual.True", "light.active.False",
             "light.offset.positive", "goal.position.lanelets", "goal.lanelets-after-positionless-goal-state", "lanelet.3d", "light.without-cycle",
-            "sign-or-light.without-position", "stopline.without-points",
+            "sign-or-light.without-position", "stopline.without-points", "one-writer-several-files",
+            "contract.pb.write_scenario_to_file",
             "sign.first-occurrence-on-non-referencing-lanelet", "value.interval", "initial.position.region",
             "traj-class.PMState", "fixture-file"]
 ASSUMPTIONS = ["derived data is not compared (center vertices, light colours, lanelet assignments)",
